@@ -12,7 +12,7 @@ structure Lat2DModel where
   getStabilizer? : Coord → Option Op
   stabilizerType : Coord → Option String
   qubitAxis : Coord → Option String
-  getDeformation : String → String → Coord → Option PauliMap
+  getDeformation : String → Option String → Coord → Option PauliMap
   /-- the explicit independent family of `n − k` stabilizer locations of the class's rank theorem
       (`C01<Class>.generators_independent`) -/
   rankFamily : List Coord
@@ -39,8 +39,8 @@ def lat2dAnswer (m : Lat2DModel) : List String → Option String
   | ["axis", c] => some ((m.qubitAxis (parseCoord c)).getD lat2dErr)
   | ["type", c] => some ((m.stabilizerType (parseCoord c)).getD lat2dErr)
   | ["deform", name, axis, c] =>
-    -- `-` = the keyword argument is omitted: Python default `deformation_axis='y'`
-    let ax := if axis == "-" then "y" else axis
+    -- `-` = the keyword argument is omitted (`none`: the model substitutes the signature default)
+    let ax := if axis == "-" then none else some axis
     some (match m.getDeformation name ax (parseCoord c) with
       | some d => lat2dShowMap d | none => lat2dErr)
   -- the matrices the generic code model (`Model/Code.lean`) assembles from the lattice model
